@@ -206,6 +206,94 @@ func c14ServeWith(table []string, chunks [][]byte, terminator []byte, limit int)
 	return o, ""
 }
 
+// c14RunAfterFailed: a binary COPY that ends badly (and leaves bytes it never consumed) is followed by a second,
+// valid COPY on the same connection: the second one yields exactly the rows the client encoded, under every split.
+func c14RunAfterFailed(bad string, cuts []int) explore.Result {
+	var res explore.Result
+	res.Outcome = "split"
+	res.Key = fmt.Sprint("after-failed", bad, cuts)
+	var o c14Obs
+	cols := wire.Columns{{Name: "c0", Oid: c14Types["int4"].OID}, {Name: "c1", Oid: c14Types["text"].OID}}
+	parse := func(ctx context.Context, q string) (wire.PreparedStatements, error) {
+		return wire.Prepared(wire.NewStatement(func(ctx context.Context, w wire.DataWriter, p []wire.Parameter) error {
+			o = c14Obs{}
+			cr, err := w.CopyIn(wire.BinaryFormat)
+			if err != nil {
+				return err
+			}
+			rd, err := wire.NewBinaryColumnReader(ctx, cr)
+			if err != nil {
+				o.final = "reader: " + err.Error()
+				return err
+			}
+			for len(o.rows) < 100 {
+				row, err := rd.Read(ctx)
+				if err == io.EOF {
+					o.final = "eof"
+					return w.Complete(fmt.Sprintf("COPY %d", len(o.rows)))
+				}
+				if err != nil {
+					o.final = "error: " + err.Error()
+					return err
+				}
+				o.rows = append(o.rows, c14Print(row))
+			}
+			return fmt.Errorf("runaway")
+		}, wire.WithColumns(cols))), nil
+	}
+	one, err := harness.StartOne(parse)
+	if err != nil {
+		res.Engine = err.Error()
+		return res
+	}
+	defer one.Stop()
+	one.Step(pgproto.Startup("user", "u"))
+	good := pgproto.Cat(pgproto.BinaryCopyHeader(), pgproto.BinaryCopyTuple([][]byte{{0, 0, 0, 1}, []byte("one")}), pgproto.BinaryCopyTuple([][]byte{{0, 0, 0, 2}, nil}), pgproto.BinaryCopyTrailer())
+	want := []string{c14Print([]any{int32(1), "one"}), c14Print([]any{int32(2), nil})}
+	tail := pgproto.Cat(pgproto.BinaryCopyTuple([][]byte{{0, 0, 0, 9}, []byte("left over")}), pgproto.BinaryCopyTuple([][]byte{{0, 0, 0, 8}, []byte("left over too")}))
+	var first [][]byte
+	end := pgproto.CopyDone()
+	switch bad {
+	case "a tuple with three fields, more tuples behind it in the same message":
+		first = [][]byte{pgproto.Cat(pgproto.BinaryCopyHeader(), []byte{0, 3, 0, 0, 0, 1, 'x', 0, 0, 0, 1, 'y', 0, 0, 0, 1, 'z'}, tail)}
+	case "an int4 field of 3 bytes, more tuples behind it":
+		first = [][]byte{pgproto.Cat(pgproto.BinaryCopyHeader(), []byte{0, 2, 0, 0, 0, 3, 1, 2, 3, 0, 0, 0, 1, 'y'}, tail)}
+	case "a wrong signature, tuples behind it":
+		first = [][]byte{pgproto.Cat([]byte("PGCOPX\n\377\r\n\000\000\000\000\000\000\000\000\000"), tail)}
+	case "the client aborts half-way through a value":
+		first = [][]byte{pgproto.Cat(pgproto.BinaryCopyHeader(), []byte{0, 2, 0, 0, 0, 4, 0, 0}), tail}
+		end = pgproto.CopyFail("changed my mind")
+	case "the stream stops half-way through a value":
+		first = [][]byte{pgproto.Cat(pgproto.BinaryCopyHeader(), []byte{0, 2, 0, 0, 0, 4, 0, 0, 0, 7, 0, 0, 0, 9, 'a', 'b'})}
+	case "a complete stream":
+		first = [][]byte{good}
+	}
+	if out, _ := one.Step(pgproto.Query("copy")); harness.Kinds(out) != "TG" {
+		res.Engine = "COPY did not start: " + harness.Kinds(out)
+		return res
+	}
+	var seg []byte
+	for _, c := range first {
+		seg = append(seg, pgproto.CopyData(c)...)
+	}
+	one.Step(pgproto.Cat(seg, end))
+	firstFinal := o.final
+	if out, _ := one.Step(pgproto.Query("copy again")); harness.Kinds(out) != "TG" {
+		res.Fail("split-dependent", fmt.Sprintf("after a COPY that ended badly (%s; reader: %q) the next COPY did not start: %q", bad, firstFinal, harness.Kinds(out)))
+		return res
+	}
+	seg = nil
+	for _, c := range splitAt(good, cuts) {
+		seg = append(seg, pgproto.CopyData(c)...)
+	}
+	out, _ := one.Step(pgproto.Cat(seg, pgproto.CopyDone()))
+	if !sameStrings(o.rows, want) || o.final != "eof" || harness.Kinds(out) != "CZ" {
+		res.Fail("split-dependent", fmt.Sprintf("a COPY that ended badly (%s; its reader ended with %q), then a valid stream of two rows split at %v on the same connection: rows %v, reader ended with %q, reply %q; expected %v", bad, firstFinal, cuts, o.rows, o.final, harness.Kinds(out), want))
+	}
+	res.Trans = []string{"failed copy|valid copy|rows"}
+	return res
+}
+
 func splitAt(b []byte, cuts []int) [][]byte {
 	var out [][]byte
 	prev := 0
@@ -623,6 +711,16 @@ func c14Enumerate(tier string, emit explore.Emit) {
 				}
 				return res
 			}})
+	}
+	for _, bad := range []string{"a tuple with three fields, more tuples behind it in the same message", "an int4 field of 3 bytes, more tuples behind it", "a wrong signature, tuples behind it",
+		"the client aborts half-way through a value", "the stream stops half-way through a value", "a complete stream"} {
+		for _, cuts := range [][]int{nil, {5}, {19}, {21}, {19, 25}, {30}} {
+			bad, cuts := bad, cuts
+			emit(explore.Case{Family: "split", Size: 200, Desc: func() any {
+				return map[string]any{"earlier_copy_on_the_connection": bad, "then_a_valid_stream_cut_at": cuts}
+			},
+				Run: func() explore.Result { return c14RunAfterFailed(bad, cuts) }})
+		}
 	}
 	// long streams: 300 rows with NULLs in changing positions, one message and 100-byte messages
 	for _, chunk := range []int{0, 100, 8192} {
